@@ -654,3 +654,83 @@ Proof.
     apply (TrRsetFind.rset_make_tabs_ok [Some [97%N]; Some [98%N]] 0%Z); [vm_compute; reflexivity|vm_compute; discriminate|vm_compute; discriminate]. }
   split; [vm_compute; reflexivity|]. split; [vm_compute; reflexivity|]. split; [vm_compute; reflexivity|]. split; vm_compute; reflexivity.
 Qed.
+
+(* ---- 2026-10-02: regcomp tied by translation (coq/TrRegexComp.v ... TrRegexCompile.v, statements C11_tr_* in Properties_C11.v) and composed
+   with the matcher (coq/TrRegexRun.v): the program array that C10_tr_regexec_model ASSUMES (TrRegexRec.prog_at for the model's
+   regcomp pattern) is PRODUCED by the translated regcomp. *)
+From NV Require TrRegexComp TrRegexParse TrRegexEmit2 TrRegexCompile TrRegexRun.
+
+(* what regcomp leaves in memory (TrRegexCompile.compiled: *preg -> struct regex -> the array whose cells hold P, C11_tr_regcomp) is a
+   program in the sense of the matcher theorems *)
+Theorem C10_tr_regcomp_prog_at : forall (m' : CLite.mem) (bpreg : nat) (cflg : Z) (P : list instr) (lo : nat) (pat : bytes) (fuel : nat),
+  TrRegexCompile.compiled m' bpreg cflg P lo -> Forall (TrRegexRun.instr_ok pat) P ->
+  length pat + 13 <= fuel -> (Z.of_nat (length pat) < 2147483647)%Z ->
+  exists bre bp, nth_error m' bpreg = Some [CLite.VPtr bre 0] /\ TrRegexRec.prog_at m' (length m') fuel bre bp P cflg.
+Proof. exact TrRegexRun.compiled_prog_at. Qed.
+Print Assumptions C10_tr_regcomp_prog_at.
+
+(* regcomp followed by regexec on the translated C text = the model's regcomp + regexec_d 256: for EVERY pattern the model accepts,
+   every previous value of the static flag re_bad, every line and every psub[] table in memory.  globals_but_bad: the global blocks
+   (brk_classes, the string literals) are where the translator put them, re_bad may hold anything. *)
+Theorem C10_tr_regcomp_regexec : forall (m : CLite.mem) (bl : nat) (pat : bytes) (bpreg : nat) (pv : CLite.val) (cflg : Z) (st0 : bool) (fuel bln : nat)
+    (line : bytes) (bps : nat) (pcells : CLite.block) (nsub eflg : Z) (e : nat) (p : prog) (res : option (list (Z * Z))) (c : N),
+  CLiteProps.str_at m bl pat -> nonul pat -> nth_error m bpreg = Some [pv] -> TrRegexParse.bad_at m st0 -> TrRegexRun.globals_but_bad m ->
+  bl <> GenCFuncs.G_re_bad -> length GenCFuncs.cglobals <= bpreg -> TrRegexComp.i32 cflg -> (Z.of_nat (length pat) < 1073741820)%Z ->
+  length pat + 13 <= fuel -> 130 < fuel ->
+  CLiteProps.str_at m bln line -> bln <> bpreg -> bln <> GenCFuncs.G_re_bad -> nth_error m bps = Some pcells -> bps <> bpreg -> bps <> GenCFuncs.G_re_bad ->
+  CLiteProps.bytes_lt256 line -> (-2147483648 <= Z.lor cflg eflg <= 2147483647)%Z -> (-2147483648 <= eflg <= 2147483647)%Z ->
+  length line + 2 <= fuel -> TrRegexBrk.cls_fuel <= fuel -> (Z.of_nat (length line) < 2147483647)%Z ->
+  length (code p) < fuel ->
+  (0 <= nsub)%Z -> (nsub * 2 <= 2147483647)%Z -> 2 * Z.to_nat nsub <= length pcells -> Z.to_nat nsub < fuel -> Z.land eflg 2 = 0%Z ->
+  regcomp pat = Ok (Some p) ->
+  regexec_d 256 p cflg line (Z.to_nat nsub) eflg = (Ok res, c) ->
+  exists m1 m2 blk extra,
+    CLite.callf GenCFuncs.cprog fuel (4 * length pat + 12) GenCFuncs.F_regcomp [CLite.VPtr bpreg 0; CLite.VPtr bl 0; CLite.VInt cflg] m = CLite.Ok (CLite.VInt 0, m1) /\
+    CLite.callf GenCFuncs.cprog fuel (S (S (S (S (S (S (S (S (S (256 + e)))))))))) GenCFuncs.F_regexec
+      [CLite.VPtr bpreg 0; CLite.VPtr bln 0; CLite.VInt nsub; CLite.VPtr bps 0; CLite.VInt eflg] m1
+    = CLite.Ok (CLite.VInt (match res with Some _ => 0 | None => 1 end)%Z, m2) /\
+    m2 = match res with
+         | Some subs => CLiteProps.upd m1 bps (CLiteTac.tab_block subs ++ skipn (2 * Z.to_nat nsub) pcells) ++ blk :: extra
+         | None => m1 ++ blk :: extra
+         end.
+Proof. exact TrRegexRun.tr_regcomp_regexec. Qed.
+Print Assumptions C10_tr_regcomp_regexec.
+
+(* non-vacuity: the translated regcomp RUNS on "a{2,3}(b|c)*" inside Coq, then the translated regexec on a line; the results are the
+   model's.  A malformed pattern ("a{3,2}(b)") is rejected with re_bad = 1 and every allocated block freed again. *)
+Definition C10_rc_G : nat := length GenCFuncs.cglobals.
+Definition C10_rc_pat : list Z := [97; 123; 50; 44; 51; 125; 40; 98; 124; 99; 41; 42]%Z.
+Definition C10_rc_mem (line : list Z) : CLite.mem :=
+  GenCFuncs.cglobals ++ [CLite.cstr_block C10_rc_pat; [CLite.VInt 0]; CLite.cstr_block line; repeat CLite.VUndef 4].
+Definition C10_rc_run (line : list Z) : option (CLite.val * CLite.val * option CLite.block) :=
+  match CLite.callf GenCFuncs.cprog 400 100 GenCFuncs.F_regcomp [CLite.VPtr (C10_rc_G + 1) 0; CLite.VPtr C10_rc_G 0; CLite.VInt 0] (C10_rc_mem line) with
+  | CLite.Ok (v, m1) =>
+      match CLite.callf GenCFuncs.cprog 400 300 GenCFuncs.F_regexec
+              [CLite.VPtr (C10_rc_G + 1) 0; CLite.VPtr (C10_rc_G + 2) 0; CLite.VInt 2; CLite.VPtr (C10_rc_G + 3) 0; CLite.VInt 0] m1 with
+      | CLite.Ok (w, m2) => Some (v, w, nth_error m2 (C10_rc_G + 3))
+      | CLite.Err _ => None
+      end
+  | CLite.Err _ => None
+  end.
+Definition C10_rc_reject (p : list Z) : option (CLite.val * option CLite.block * list nat) :=
+  match CLite.callf GenCFuncs.cprog 400 100 GenCFuncs.F_regcomp [CLite.VPtr (C10_rc_G + 1) 0; CLite.VPtr C10_rc_G 0; CLite.VInt 0]
+          (GenCFuncs.cglobals ++ [CLite.cstr_block p; [CLite.VInt 0]]) with
+  | CLite.Ok (v, m1) => Some (v, nth_error m1 GenCFuncs.G_re_bad, map (@length CLite.val) (skipn (C10_rc_G + 2) m1))
+  | CLite.Err _ => None
+  end.
+Example C10_tr_regcomp_nonvacuous :
+  C10_rc_run [120; 97; 97; 97; 98; 99; 99; 100; 10]%Z = Some (CLite.VInt 0, CLite.VInt 0, Some [CLite.VInt 1; CLite.VInt 7; CLite.VInt 6; CLite.VInt 7]) /\
+  C10_rc_run [97; 97; 10]%Z = Some (CLite.VInt 0, CLite.VInt 0, Some [CLite.VInt 0; CLite.VInt 2; CLite.VInt (-1); CLite.VInt (-1)]) /\
+  C10_rc_run [97; 98; 10]%Z = Some (CLite.VInt 0, CLite.VInt 1, Some [CLite.VUndef; CLite.VUndef; CLite.VUndef; CLite.VUndef]) /\
+  (exists p, regcomp [97; 123; 50; 44; 51; 125; 40; 98; 124; 99; 41; 42]%N = Ok (Some p) /\
+     code p = [IMark 0; IAtom (AChr [97%N]); IAtom (AChr [97%N]); IFork 4 5; IAtom (AChr [97%N]); IFork 6 13; IMark 2; IFork 8 10;
+               IAtom (AChr [98%N]); IJump 11; IAtom (AChr [99%N]); IMark 3; IFork 6 13; IMark 1; IMatch] /\
+     fst (regexec_d 256 p 0 [120; 97; 97; 97; 98; 99; 99; 100; 10]%N 2 0) = Ok (Some [(1, 7); (6, 7)]%Z) /\
+     fst (regexec_d 256 p 0 [97; 98; 10]%N 2 0) = Ok None) /\
+  C10_rc_reject [97; 123; 51; 44; 50; 125; 40; 98; 41]%Z = Some (CLite.VInt 1, Some [CLite.VInt 1], [1; 0; 0]) /\
+  regcomp [97; 123; 51; 44; 50; 125; 40; 98; 41]%N = Ok None.
+Proof.
+  split; [vm_compute; reflexivity|]. split; [vm_compute; reflexivity|]. split; [vm_compute; reflexivity|].
+  split. { eexists. split; [vm_compute; reflexivity|]. split; [vm_compute; reflexivity|]. split; vm_compute; reflexivity. }
+  split; vm_compute; reflexivity.
+Qed.
